@@ -3,6 +3,7 @@ import json
 import random
 
 from ..core import datafmt, tlc
+from ..core.values import flatten as flatten_
 from ..core.runner import main
 
 FORMATS = sorted(datafmt.GEN)
@@ -30,6 +31,36 @@ def run(chk, replay=None):
             buf = datafmt.GEN[fmt](rng)
             events.append(datafmt.unmarshal_event(fmt, buf, dec))
             ev.case((fmt, bytes(buf)), nontrivial=any(buf))
+    # the other observation point: ONE command object per format, its data-in buffer re-filled in place by the
+    # "transport" (as SCSIDevice / ISCSIDevice do) and cmd.unmarshall() called again: cmd.result is the new answer
+    from ..core import cmds
+    INST = {"ReadCapacity10": "ReadCapacity10", "ReadCapacity16": "ReadCapacity16", "ReportLuns": "ReportLuns",
+            "GetLBAStatus": "GetLBAStatus", "ModeSense6": "ModeSense6", "ModeSense10": "ModeSense10",
+            "RtpgLen": "ReportTargetPortGroups", "RtpgExt": "ReportTargetPortGroups", "PrinKeys": "PersistentReserveInReadKeys",
+            "PrinReservation": "PersistentReserveInReadReservation", "PrinCapabilities": "PersistentReserveInReportCapabilities",
+            "PrinFullStatus": "PersistentReserveInReadFullStatus", "Rdi": "ReadDiscInformation",
+            "ReadElementStatus": "ReadElementStatus", "ReportPriority": "ReportPriority", "InquiryStd": "Inquiry"}
+    for fmt in FORMATS:
+        try:
+            if fmt.startswith("Vpd"):
+                cmd = cmds.klass("Inquiry")(cmds.opcode("Inquiry", "spc"), 1, int(fmt[3:], 16), 64)
+            else:
+                cmd = cmds.benign(INST[fmt])
+        except Exception:
+            continue            # class cannot be instantiated: reported by C05 / C13
+        for i in range(6 if chk.quick else 400):
+            buf = datafmt.GEN[fmt](rng, 1) if fmt.startswith("ModeSense") and i % 2 else datafmt.GEN[fmt](rng)
+            e = {"ev": "Unmarshal", "fmt": fmt, "bytes": list(buf), "out": {}, "exc": "", "route": "cmd.unmarshall()"}
+            try:
+                cmd.datain[:] = buf
+                cmd.unmarshall(**({"evpd": 1} if fmt.startswith("Vpd") else {}))      # as SCSI.inquiry does
+                e["out"] = flatten_(cmd.result) if cmd.result is not None else {}
+            except Exception as ex:
+                e["exc"] = type(ex).__name__
+            if not e["out"]:
+                e["out"] = {"#empty": []}
+            events.append(e)
+            ev.case((fmt, "instance", bytes(buf)))
     # READ CD sector layouts (decoder needs the request parameters)
     from ..core.lib import mod
     from ..core.values import flatten
